@@ -31,10 +31,11 @@ def _user_chunk(vecs):
     bad = []
     for v in vecs:
         table = dict(v['t'])
-        case = {'snippets': table, 'abbr': v['abbr']}
+        case = {'snippets': table, 'abbr': v['abbr'], 'reverseAttributes': v['reverse']}
         try:
             with common.Alarm(10):
-                text = emmet.expand(v['abbr'], {'snippets': table, 'options': {'output.format': False, 'output.selfClosingStyle': 'xhtml'}})
+                text = emmet.expand(v['abbr'], {'snippets': table, 'options': {'output.format': False, 'output.selfClosingStyle': 'xhtml',
+                                                                                   'output.reverseAttributes': v['reverse']}})
         except TimeoutError:
             bad.append(('resolution does not terminate', case))
             continue
@@ -116,9 +117,9 @@ def run(out):
     out.assumptions = ['the self-closing mark is compared through the printed markup (an element with content prints its closing tag)',
                        'built-in forms with modifiers are built textually only for definitions that are a single element']
     allshapes = {"leaf", "attr", "cls", "text", "child", "siblings"}
-    insts = [('two-keys-all-uses', dict(constants={'Keys': {"k1", "k2"}, 'Plain': {"x"}, 'DefShapes': allshapes, 'UseIdx': set(range(1, 13))})),
+    insts = [('two-keys-all-uses', dict(constants={'Keys': {"k1", "k2"}, 'Plain': {"x"}, 'DefShapes': allshapes, 'UseIdx': set(range(1, 13)), 'Reverses': {False, True}})),
              ('three-keys', dict(constants={'Keys': {"k1", "k2", "k3"}, 'Plain': {"x"}, 'DefShapes': {"leaf", "child"} if quick else {"leaf", "child", "siblings"},
-                                            'UseIdx': {1, 2, 8, 10} if quick else {1, 2, 5, 8, 10, 11}}))]
+                                            'UseIdx': {1, 2, 8, 10} if quick else {1, 2, 5, 8, 10, 11}, 'Reverses': {False}}))]
     for name, kw in insts:
         r = common.run_tlc('AbbrResolve', timeout=3000, heap='12g', **kw)
         if r.violated:
@@ -133,7 +134,7 @@ def run(out):
         out.evaluations += len(vecs)
         for v in vecs:
             if any(k in d for d in v['t'].values() for k in v['t']):
-                out.distinct.add((tuple(sorted(v['t'].items())), v['abbr']))
+                out.distinct.add((tuple(sorted(v['t'].items())), v['abbr'], v['reverse']))
         for what, case in bad:
             out.violation(what, case)
         v = vecs[zlib.crc32(name.encode()) % len(vecs)]
@@ -167,6 +168,6 @@ def replay(case):
     c = case['case']
     if 'snippets' in c:
         return 'expand(%r, snippets=%r) -> %r\nexpected %r' % (c['abbr'], c['snippets'],
-                                                              emmet.expand(c['abbr'], {'snippets': c['snippets'], 'options': {'output.format': False}}), c.get('expected'))
+                                                              emmet.expand(c['abbr'], {'snippets': c['snippets'], 'options': {'output.format': False, 'output.reverseAttributes': bool(c.get('reverseAttributes'))}}), c.get('expected'))
     cfg = {'syntax': c['syntax'], 'options': {'output.format': c['format']}}
     return 'alias %r -> %r\ndefinition %r -> %r' % (c['alias_form'], emmet.expand(c['alias_form'], dict(cfg)), c['definition_form'], emmet.expand(c['definition_form'], dict(cfg)))
